@@ -31,15 +31,19 @@ def seeded(rnd=None):
         else:
             c = "**no**"
         by = []
-        if not r.get("check_detected"):
-            r["check_output"] = []
-        out = " ".join(r.get("check_output", []))
-        if "UNDISCHARGED" in out or "proof: FAIL" in out or re.search(r"proof:.*(fail|broken)", out, re.I):
+        lines = r.get("check_output", []) if r.get("check_detected") else []
+        if any("UNDISCHARGED" in l for l in lines):
             by.append("proof obligation")
-        if re.search(r"tie|correspondence|model-differs|differs", out, re.I):
+        dis = sum(int(m.group(1)) for l in lines for m in [re.search(r"(\d+) disagreements", l)] if m)
+        rej = sum(int(m.group(1)) for l in lines for m in [re.search(r"(\d+) monitor rejections", l)] if m)
+        pan = sum(int(m.group(1)) for l in lines for m in [re.search(r"(\d+) panics", l)] if m)
+        if dis:
             by.append("correspondence")
-        if re.search(r"monitor|reject", out, re.I):
+        if rej or pan:
             by.append("monitor")
+        oc = r.get("other_checks", {})
+        if oc:
+            by.append("also " + ", ".join(k for k, v in sorted(oc.items()) if v.get("check_detected")))
         print("| %s | %s | %s | %s | %s |" % (os.path.basename(d), summ, "yes" if r.get("confirmed") else "no", c, ", ".join(by) or "—"))
 
 
